@@ -48,7 +48,9 @@ def grammar_arities():
     return out
 
 
-def build(tier, work, builder):
+def expr_core(work):
+    """Slices struct expression_data, the node constructor, ValueTypeEquality, clone/clone_deeper/subst/equal/get_size/
+    accessors and the create_* factories into expr_data.inc / expr_value_eq.inc / expr_funcs.inc (shared with C02)."""
     slices = []
     src = X.Source(EX)
     write(work, "kinds.h", T.kinds_header())
@@ -103,6 +105,7 @@ def build(tier, work, builder):
     fl.append(gsz)
     for name, rx in (("expression_t::get_kind", r"^kind_t expression_t::get_kind\(\) const"),
                      ("expression_t::get_type", r"^type_t expression_t::get_type\(\) const"),
+                     ("expression_t::set_type", r"^void expression_t::set_type\(type_t type\)"),
                      ("expression_t::empty", r"^bool expression_t::empty\(\) const"),
                      ("expression_t::operator[]", r"^expression_t& expression_t::operator\[\]\(uint32_t i\)"),
                      ("expression_t::operator[] const", r"^const expression_t expression_t::operator\[\]\(uint32_t i\) const"),
@@ -136,6 +139,11 @@ def build(tier, work, builder):
     text = "\n".join(s.text for s in fl + facts) + "\n"
     write(work, "expr_funcs.inc", text)
     slices += fl + facts
+    return slices
+
+
+def build(tier, work, builder):
+    slices = expr_core(work)
     # --- the REAL ExpressionBuilder::expr_unary (maps the grammar's unary operator kinds to node kinds)
     eb = X.Source("src/ExpressionBuilder.cpp")
     eu = X.function(eb, "ExpressionBuilder::expr_unary", r"^void ExpressionBuilder::expr_unary\(kind_t unaryop\)")
